@@ -3,7 +3,7 @@ algorithm's correctness argument rests on (index keyed by last keys, probe plumb
 descent, the relation and arm action of every key comparison, offset-table layout)."""
 from .common import *
 from .c01 import classify_block_writes, r4_index_pair, r7_mirror
-from .c03 import return_alts, is_err_path, decoded_offset, r5_wrappers
+from .c03 import return_alts, is_err_path, decoded_offset, r5_wrappers, r3_reset
 
 PID = "C02"
 META = {
@@ -24,6 +24,7 @@ def run(ck):
         # the single steps the floor / ceiling seeks take across block boundaries (shared with C03-R5)
         ck.guard("C02-R5", r5_wrappers, ck, F, "C02-R5")
         ck.guard("C02-R5", r7_mirror, ck, F, "C02-R5")
+        ck.guard("C02-R5", r3_reset, ck, F, "C02-R5")
     ck.trusted += ["rustc MIR construction", "core slice ordering and binary_search_by_key"]
 
 
